@@ -12,7 +12,7 @@ def hook(prop):
 
 def run(prop, tier, seed):
     out = {'obligations': 0, 'discharged': 0, 'violations': [], 'known': [], 'bounded': [], 'trusted': [],
-           'samples': [], 'detail': {}, 'assumptions': []}
+           'samples': [], 'detail': {}, 'assumptions': [], 'undecided': []}
     import importlib, os
     d = os.path.join(os.path.dirname(os.path.dirname(os.path.abspath(__file__))), 'contracts', 'extra')
     if os.path.isdir(d):
@@ -23,7 +23,7 @@ def run(prop, tier, seed):
         r = h(tier, seed) or {}
         for k in ('obligations', 'discharged'):
             out[k] += r.get(k, 0)
-        for k in ('violations', 'known', 'bounded', 'trusted', 'samples', 'assumptions'):
+        for k in ('violations', 'known', 'bounded', 'trusted', 'samples', 'assumptions', 'undecided'):
             out[k].extend(r.get(k, []))
         out['detail'].update(r.get('detail', {}))
     return out
